@@ -157,7 +157,16 @@ func (g *Gen) tplClosureExit() []L.Stmt {
 			r = ret(call(name("hostf"), num(1), str("tail")))
 		}
 		fe := fn([]string{v + "p"}, false, blk(append(closurePair(sv, v+"p"), nest(create(v, []L.Stmt{r}))...)...))
-		out = append(out, emit(call(paren(fe), num(33))))
+		if g.n(2, "twoactivations") == 0 {
+			// two activations of the same function (the second one recursive): each has its own instances
+			g.class("closure:two_activations")
+			rf := g.fresh("rf")
+			rfe := fn([]string{"depth"}, false, blk(local1("mine", bin("*", name("depth"), num(10))), assign1(idx(sv, bin("+", un("#", sv), num(1))), fn(nil, false, blk(ret(name("mine"))))), assign1(idx(sv, bin("+", un("#", sv), num(1))), fn([]string{"x"}, false, blk(assign1(name("mine"), name("x"))))),
+				ifs(bin(">", name("depth"), num(1)), blk(callStmt(call(name(rf), bin("-", name("depth"), num(1))))), nil), ret(name("mine"))))
+			out = append(out, local1("ff", fe), emit(call(name("ff"), num(33))), emit(call(name("ff"), num(44))), &L.LocalFuncStmt{Name: rf, Fn: rfe}, emit(call(name(rf), num(3))))
+		} else {
+			out = append(out, emit(call(paren(fe), num(33))))
+		}
 	case 8: // error caught by pcall / xpcall / Go-side panic caught by pcall
 		var raise L.Stmt
 		switch g.n(4, "raisekind") {
